@@ -361,6 +361,112 @@ def obligation(n, fn, loops, hyps):
         fn.obl.append({'fn': fn.name, 'line': n.lineno, 'what': '%s axis %d' % (src, k), 'hyps': list(hyps), 'goal': goal, 'notsize': sorted(set(loops) | set(fn.ints))})
 
 
+# ---------------------------------------------------------------------------------------------------------------
+# call sites: the arrays arm_model.py / sp_model.py hand to the kernels have the documented shapes
+CALLSITE_FILES = ['basic_robotics/kinematics/arm_model.py', 'basic_robotics/kinematics/sp_model.py']
+# documented shapes of the state the callers slice (checked on real objects by the harness); n = number of joints
+SITE_SHAPES = {
+    'self.screw_list': (6, 'n'), 'self.screw_list_body': (6, 'n'), 'theta': ('n',), 'theta_init': ('n',), 'theta_temp': ('n',),
+    'self.joint_mins': ('n',), 'self.joint_maxs': ('n',),
+    'self._bottom_joints_local': (3, 6), 'self._top_joints_local': (3, 6), 'self._bottom_joints_space': (3, 6), 'self._top_joints_space': (3, 6),
+    'self._bottom_joints_init': (6, 3), 'self._top_joints_init': (6, 3), 'L': (6,), 'attempt': (6,),
+}
+# integer parameters of the calling methods and their documented range
+SITE_INDEX = {'i': ('0 ≤ i', 'i < n')}
+SLICE_OBL = []
+
+
+def site_int(e):
+    if isinstance(e, ast.Constant) and isinstance(e.value, int):
+        return str(e.value)
+    if isinstance(e, ast.Name) and e.id in SITE_INDEX:
+        return e.id
+    if isinstance(e, ast.BinOp) and isinstance(e.op, (ast.Add, ast.Sub)):
+        a, b = site_int(e.left), site_int(e.right)
+        if a is not None and b is not None:
+            return '(%s %s %s)' % (a, '+' if isinstance(e.op, ast.Add) else '-', b)
+    return None
+
+
+def site_shape(e):
+    """symbolic shape of an argument expression at a call site, dims as Lean Int expressions; None = not resolved"""
+    txt = ast.unparse(e)
+    if txt in SITE_SHAPES:
+        return tuple(str(d) for d in SITE_SHAPES[txt])
+    if isinstance(e, ast.Attribute) and e.attr == 'TM':
+        return ('4', '4')
+    if isinstance(e, ast.Call) and isinstance(e.func, ast.Attribute) and e.func.attr == 'gTM':
+        return ('4', '4')
+    if isinstance(e, ast.Call) and isinstance(e.func, ast.Attribute) and e.func.attr == 'copy':
+        return site_shape(e.func.value)
+    if isinstance(e, ast.Subscript):
+        base = site_shape(e.value)
+        if base is None:
+            return None
+        idx = e.slice.elts if isinstance(e.slice, ast.Tuple) else [e.slice]
+        out = []
+        for k, ix in enumerate(idx):
+            if k >= len(base):
+                return None
+            if isinstance(ix, ast.Slice):
+                lo = site_int(ix.lower) if ix.lower is not None else '0'
+                hi = site_int(ix.upper) if ix.upper is not None else base[k]
+                if lo is None or hi is None or ix.step is not None:
+                    return None
+                SLICE_OBL.append({'what': 'slice %s stays inside axis %d of %s' % (ast.unparse(e), k, ast.unparse(e.value)), 'line': e.lineno,
+                                  'goal': '0 ≤ %s ∧ %s ≤ %s ∧ %s ≤ %s' % (lo, lo, hi, hi, base[k])})
+                out.append(hi if lo == '0' else '(%s - %s)' % (hi, lo))
+            else:
+                if site_int(ix) is None:
+                    return None
+        out += list(base[len(idx):])
+        return tuple(out)
+    return None
+
+
+def callsites():
+    """obligations: at every call of a kernel from the arm / platform models, arguments whose documented shapes share a
+    symbol have equal extents there, and constant extents are the documented constants"""
+    obl, unresolved = [], []
+    for rel in CALLSITE_FILES:
+        tree = ast.parse(open(os.path.join(REPO, rel)).read())
+        for fn in [n for n in ast.walk(tree) if isinstance(n, ast.FunctionDef)]:
+            for call in [n for n in ast.walk(fn) if isinstance(n, ast.Call)]:
+                f = call.func
+                if not (isinstance(f, ast.Attribute) and isinstance(f.value, ast.Name) and f.value.id == 'fmr' and f.attr in ARG_SHAPES):
+                    continue
+                doc = ARG_SHAPES[f.attr]
+                params = KERNEL_PARAMS.get(f.attr, [])
+                binding = {}
+                for pname, arg in zip(params, call.args):
+                    if pname not in doc:
+                        continue
+                    del SLICE_OBL[:]
+                    sh = site_shape(arg)
+                    for so in SLICE_OBL:
+                        obl.append({'fn': 'site_' + fn.name, 'line': so['line'], 'what': '%s line %d (%s): %s' % (os.path.basename(rel), so['line'], fn.name, so['what']), 'goal': so['goal']})
+                    if sh is None:
+                        unresolved.append('%s:%d %s(%s=%s)' % (os.path.basename(rel), call.lineno, f.attr, pname, ast.unparse(arg)[:40]))
+                        continue
+                    if len(sh) != len(doc[pname]):
+                        raise TranslationError('%s line %d: %s is passed an array of %d axes for %s' % (rel, call.lineno, f.attr, len(sh), pname))
+                    for k, (d, want) in enumerate(zip(sh, doc[pname])):
+                        what = '%s line %d (%s): %s(%s=%s) axis %d' % (os.path.basename(rel), call.lineno, fn.name, f.attr, pname, ast.unparse(arg)[:50], k)
+                        if isinstance(want, int):
+                            obl.append({'fn': 'site_' + fn.name, 'line': call.lineno, 'what': what + ' has the documented extent', 'goal': '%s = %d' % (d, want)})
+                        elif want in binding:
+                            obl.append({'fn': 'site_' + fn.name, 'line': call.lineno, 'what': what + ' agrees with ' + binding[want][1], 'goal': '%s = %s' % (d, binding[want][0])})
+                        else:
+                            binding[want] = (d, '%s axis %d' % (pname, k))
+    for o in obl:
+        o['hyps'] = ['0 ≤ n'] + [h for v in SITE_INDEX.values() for h in v]
+        o['notsize'] = ['i', 'n']
+    return obl, unresolved
+
+
+KERNEL_PARAMS = {}
+
+
 def translate():
     fns, skipped = [], []
     for rel in FILES:
@@ -368,6 +474,7 @@ def translate():
         for node in tree.body:
             if isinstance(node, ast.FunctionDef):
                 if is_jit(node):
+                    KERNEL_PARAMS[node.name] = [a.arg for a in node.args.args]
                     f = Fn(node, rel)
                     collect(f)
                     fns.append(f)
@@ -402,14 +509,27 @@ def emit(fns):
     return '\n'.join(out) + '\n', n, names
 
 
+class _Site:
+    pass
+
+
 def generate():
     fns, skipped = translate()
+    site_obl, unresolved = callsites()
+    groups = {}
+    for o in site_obl:
+        groups.setdefault(o['fn'], []).append(o)
+    for name in sorted(groups):
+        f = _Site(); f.name = name; f.obl = groups[name]
+        fns.append(f)
     text, n, names = emit(fns)
     os.makedirs(os.path.dirname(OUT), exist_ok=True)
     old = open(OUT).read() if os.path.exists(OUT) else None
     if old != text:
         open(OUT, 'w').write(text)
-    return {'generated_obligations': n, 'kernels': len(fns), 'kernels_with_subscripts': sum(1 for f in fns if f.obl), 'names': names,
+    kern = [f for f in fns if not isinstance(f, _Site)]
+    return {'generated_obligations': n, 'kernels': len(kern), 'kernels_with_subscripts': sum(1 for f in kern if f.obl), 'names': names,
+            'call_site_obligations': len(site_obl), 'call_site_arguments_not_resolved': unresolved,
             'not_jit_functions_in_the_modules': skipped, 'per_kernel': {f.name: len(f.obl) for f in fns}}
 
 
